@@ -153,6 +153,9 @@ fn stat_line(stdout: &[u8], suffix: &str) -> Option<u64> {
 
 pub fn check(case: &Case) -> Verdict {
     let n = case.files.len();
+    if case.files.iter().any(|f| gen::starts_with_bom(&f.0)) {
+        return Verdict::Reject("a file starts with a byte-order mark (transcoding is C17's subject)");
+    }
     let dir = TempDir::fast("c10");
     for (i, f) in case.files.iter().enumerate() {
         dir.write(&fname(i), &f.0);
